@@ -81,6 +81,8 @@ struct Swarm {
     unsigned rotate_export_pm = 500;
     unsigned untimed_pm = 200;      // records without a timestamp
     bool force_storable = false;    // every query/response carries a member that no hint can exclude (preamble profile: a block must reach the file)
+    bool long_run = false;          // P_LONG
+    bool destroy_by_unwinding = false;   // the exporter is destroyed while an application exception propagates past it
     bool crash_mode = false;        // crash scenarios: named outputs, older files under target names, rotation onto existing / open names
     std::vector<std::string> ip_pool, name_pool, payload_pool;
     std::vector<CDNS::ClassType> ct_pool;
@@ -147,7 +149,7 @@ inline CDNS::BlockParameters block_parameters(Rng& r, bool rich) {
     return bp;
 }
 
-enum Profile { P_GENERAL, P_HINTS, P_ROTATE, P_FLUSH, P_TABLES, P_TIME, P_PREAMBLE, P_EMPTY, P_BIG, P_CRASH, P_FAULT };
+enum Profile { P_GENERAL, P_HINTS, P_ROTATE, P_FLUSH, P_TABLES, P_TIME, P_PREAMBLE, P_EMPTY, P_BIG, P_CRASH, P_FAULT, P_LONG };
 
 inline Swarm swarm(uint64_t seed, Profile prof) {
     Rng r(sim::mix_str(seed, "swarm"));
@@ -186,12 +188,25 @@ inline Swarm swarm(uint64_t seed, Profile prof) {
         case P_PREAMBLE: s.n_ops = (unsigned)r.range(2, 6); s.force_storable = true; s.w_qr = 14; break;
         case P_EMPTY: s.empty_stats_pm = 500; s.stats_pm = 600; s.empty_struct_pm = 500; s.w_ext = 6; break;
         case P_BIG: s.big_pm = 120; s.n_ops = (unsigned)r.range(10, 40); break;
+        case P_LONG: {
+            // one output that receives more than 2^16 blocks (counters narrower than size_t wrap here); tiny records, tiny blocks
+            s.sets.resize(1);
+            s.late_sets.clear();
+            s.sets[0].storage_parameters.max_block_items = 1;
+            s.sets[0].storage_parameters.storage_hints = CDNS::StorageHints();
+            s.density_pm = 0; s.stats_pm = 0; s.big_pm = 0; s.untimed_pm = 1000; s.force_storable = true;
+            s.w_qr = 1; s.w_aec = 0; s.w_mm = 0; s.w_write = 0; s.w_rotate = 0; s.w_add = 0; s.w_set = 0; s.w_ctr = 0; s.w_ext = 0; s.w_edit = 0;
+            s.n_ops = 65536 + (unsigned)r.range(1, 300);
+            s.long_run = true;
+            break;
+        }
         case P_CRASH: s.crash_mode = true; s.n_ops = (unsigned)r.range(2, 14); s.w_rotate = 5; s.fd_output = false; s.big_pm = r.chance(1, 4) ? 60 : 0; break;
         case P_FAULT: s.crash_mode = !s.fd_output; s.n_ops = (unsigned)r.range(2, 16); s.w_rotate = 4; s.w_write = 4; s.big_pm = r.chance(1, 3) ? 80 : 0; s.w_add = 0; break;
         default: break;
     }
-    if (prof != P_EMPTY && r.chance(1, 5)) s.w_ext = 2;
-    if (prof == P_HINTS || prof == P_ROTATE || r.chance(1, 6)) { s.w_edit = 2; if (prof == P_HINTS) s.w_rotate = 2; }
+    if (prof != P_EMPTY && prof != P_LONG && r.chance(1, 5)) s.w_ext = 2;
+    s.destroy_by_unwinding = r.chance(1, 3);
+    if (prof != P_LONG && (prof == P_HINTS || prof == P_ROTATE || r.chance(1, 6))) { s.w_edit = 2; if (prof == P_HINTS) s.w_rotate = 2; }
     if (prof == P_FAULT) s.w_ext = 0;
     for (unsigned i = 0; i < s.pool; i++) {
         s.ip_pool.push_back(bytes(r, r.chance(1, 8) ? r.below(20) : (r.coin() ? 4 : 16)));
